@@ -603,10 +603,66 @@ def genBranchProgram (idx : Nat) : Gen (List Case) := do
               model := model, spec := (V.mkArr [vb, vc, va]).canon, payload := [src] }]
   | _, _, _, _, _, _ => pure []
 
+/-! ## the result as a value: `=` against the canonical literal, truthiness, use as a member -/
+
+/-- observables that depend on the representation being canonical, not only on what it enumerates -/
+def observeEq (id stratum : String) (e : E) : List Case :=
+  match Spec.eval e with
+  | .ok (.set xs) =>
+    let cls := classOf e
+    let l := (litOfV (.set xs)).src
+    let mk (tag src spec : String) : Case :=
+      { id := id ++ tag, cls := cls, kind := "eval", stratum := stratum, model := spec, spec := spec, payload := [src] }
+    [ mk "-eq" ("(" ++ e.src ++ " = " ++ l ++ ")") "{()}",
+      mk "-qe" ("(" ++ l ++ " = " ++ e.src ++ ")") "{()}",
+      mk "-tr" ("(" ++ e.src ++ " = {})") (V.bool xs.isEmpty).canon,
+      mk "-cd" ("cond " ++ e.src ++ " {{}: 0, _: 1}") (if xs.isEmpty then "0" else "1"),
+      mk "-mb" ("({" ++ e.src ++ ", " ++ l ++ "} count)") "1",
+      mk "-ky" ("({" ++ e.src ++ ": 1} | {" ++ l ++ ": 1}) count") "1" ]
+  | _ => []
+
+/-- both operands are mixed-kind sets (UnionSets) that share at least one whole bucket exactly -/
+def genMixedProgram (idx : Nat) : Gen (List Case) := do
+  let id := s!"C01-{idx}"
+  let kinds ← shuffle ["str", "arr", "setnum", "dict", "rel", "bytes", "offstr", "setsets"]
+  let nk ← pick [2, 3, 3, 4]
+  let kinds := kinds.take nk
+  let allEq ← chance 1 5
+  let mut pa : List E := []
+  let mut pb : List E := []
+  let mut first := true
+  for k in kinds do
+    let x ← genOperand k
+    let mode ← rand 5
+    if first || allEq || mode < 2 then
+      pa := x :: pa; pb := x :: pb
+    else if mode == 2 then
+      let y ← genOperand k
+      pa := x :: pa; pb := y :: pb
+    else if mode == 3 then pa := x :: pa
+    else pb := x :: pb
+    first := false
+  if ← chance 1 2 then pb := pb.reverse
+  let mkU (ps : List E) : E := match ps with
+    | [] => .lit (.set [])
+    | x :: r => r.foldl (fun acc y => .bin .union acc y) x
+  let a := mkU pa
+  let b := mkU pb
+  let form ← rand 10
+  if form < 7 then
+    let op ← pick (setOps ++ [.symdiff, .diff])
+    let e : E := .bin op a b
+    let cs ← observe id s!"mixed/{op.src}/{nk}" e true
+    pure (cs ++ observeEq id s!"mixed/{op.src}/{nk}" e)
+  else
+    let op ← pick (subsetOps ++ [.compe, .ncompe])
+    observe id s!"mixed/{op.src}/{nk}" (.cmp op a b) false
+
 def genProgram (idx : Nat) : Gen (List Case) := do
   let id := s!"C01-{idx}"
-  let form0 ← rand 115
-  if form0 ≥ 107 then genBranchProgram idx
+  let form0 ← rand 123
+  if form0 ≥ 115 then genMixedProgram idx
+  else if form0 ≥ 107 then genBranchProgram idx
   else if form0 ≥ 100 then genPermProgram idx
   else
   let form := form0
